@@ -3486,8 +3486,10 @@ impl RaftNode {
         let mut persistent = self.persistent.write();
         // Replace log with entries from snapshot - reset base since we have
         // a complete set of entries starting from index 1
+        // A leader that has already compacted its log sends a snapshot that starts after
+        // index 1; what precedes its first entry is compacted here as well.
+        persistent.log_base_index = entries.first().map_or(0, |e| e.index.saturating_sub(1));
         persistent.log = entries;
-        persistent.log_base_index = 0;
 
         // Update term if snapshot has higher term (re-check after WAL persist)
         if metadata.last_included_term > persistent.current_term {
